@@ -53,7 +53,7 @@ def class_churn_search(ctx, nq=400):
     os.makedirs(d, exist_ok=True)
     progs = []
     for k in range(ctx.n(nq, 4000)):
-        src, exp = c13.site_program(rng) if k % 2 else dying_classes_program(rng)
+        src, exp = c13.render_sites(c13.site_program(rng)) if k % 2 else dying_classes_program(rng)
         f = os.path.join(d, "s%d.lay" % k)
         open(f, "w").write(src)
         progs.append((f, src, exp))
